@@ -35,7 +35,7 @@ for pid in ALL:
             "evidence_file": "evidence/%s.json" % pid,
             "replay_cmd_template": "./check %s --replay {path}" % pid,
             "engine": "coq+vh+modelrun",
-            "level_claimed": {"category": "proof", "text": p["level_text"], "design_ref": p.get("design_ref", "DESIGN.md section 5 (%s)" % pid)},
+            "level_claimed": {"category": "proof", "text": p["level_text"], "design_ref": p.get("design_ref", "DESIGN.md Part I, sections I.2-I.3 (%s); Part II section 5 is the plan written before the build" % pid)},
             "level_note": p["level_note"],
             "technique": p["technique"],
         })
